@@ -125,8 +125,9 @@ class World:
                           frozenset(OPTION_BYTES[i] for i in allow), self.app)
             p.makeConnection(self.pipes[side])
             self.peers.append(p)
-        self.requests = []      # [side, verb, optindex, times fired, outcome]
+        self.requests = []      # [side, verb, optindex, times fired, outcome, follow-up or None]
         self.nrequests = 0
+        self.late = []          # anomalies noticed inside a Deferred callback (raised by the next audit)
 
     # -- actions -------------------------------------------------------------------------------------------------
 
@@ -138,10 +139,17 @@ class World:
             rec[4] = "fail:" + result.type.__name__
             if not result.check(*DOCUMENTED_FAILURES):
                 rec[4] = "UNDOCUMENTED " + rec[4] + " " + result.getErrorMessage()
+        then = rec[5]
+        if then is not None and rec[3] == 1:
+            # the application reacts to the outcome by issuing its next request from inside the callback
+            try:
+                self.request(rec[0], then[0], then[1], audit=False)
+            except Anomaly as e:
+                self.late.append("%s (issued from the callback of %s)" % (e, show_request(rec)))
         return None
 
-    def request(self, side, verb, oi):
-        rec = [side, verb, oi, 0, None]
+    def request(self, side, verb, oi, then=None, audit=True):
+        rec = [side, verb, oi, 0, None, then]
         self.requests.append(rec)
         self.nrequests += 1
         try:
@@ -151,7 +159,8 @@ class World:
         if not isinstance(d, defer.Deferred):
             raise Anomaly("%s.%s(%d) returned %r, not a Deferred" % ("AB"[side], verb, oi, d))
         d.addCallbacks(self._fired, self._fired, callbackArgs=(rec, True), errbackArgs=(rec, False))
-        self._audit()
+        if audit:
+            self._audit()
 
     def next_command(self, direction):
         """The oldest undelivered negotiation command in a pipe (3 bytes), or None."""
@@ -187,6 +196,8 @@ class World:
             self.deliver(a[1])
 
     def _audit(self):
+        if self.late:
+            raise Anomaly(self.late[0])
         for rec in self.requests:
             if rec[3] > 1:
                 raise Anomaly("the Deferred of %s fired %d times" % (show_request(rec), rec[3]))
@@ -212,7 +223,7 @@ class World:
         tables = tuple(self.table(side, oi) for side in (0, 1) for oi in range(n))
         app = tuple(bool(self.app.get((side, which, o))) for side in (0, 1) for which in "LR" for o in self.opts)
         pending = [0] * (4 * n)
-        for side, verb, oi, fired, _ in self.requests:
+        for side, verb, oi, fired, _, _ in self.requests:
             if not fired:
                 pending[(side * n + oi) * 2 + (verb in ("do", "dont"))] += 1
         return (tables, self.pipes[0].buf, self.pipes[1].buf, app, tuple(pending))
@@ -567,4 +578,91 @@ class RandomRuns(Bounded):
         return random_run(*case)
 
 
-BOUNDED = [ExhaustiveInterleavings, RandomRuns]
+# ----------------------------------------------------------------------------------------------------------------
+# requests issued from inside the callback of an earlier request's Deferred
+# ----------------------------------------------------------------------------------------------------------------
+
+def reentrant_run(config, script):
+    """script: actions as in ACTIONS, or (request action, follow-up request action): the follow-up is issued by the
+    same side from inside the callback/errback of the first request's Deferred, at the moment it fires."""
+    w = World(config)
+    done = []
+    try:
+        for step in script:
+            if isinstance(step, tuple):
+                a, b = ACTIONS[step[0]], ACTIONS[step[1]]
+                w.request(a[1], a[2], a[3], then=(b[2], b[3]))
+            else:
+                w.act(step)
+            done.append(step)
+        steps = 0
+        while not w.quiescent():
+            d = 0 if w.pipes[0].buf else 1
+            w.deliver(d)
+            done.append(("A>B", "B>A")[d])
+            steps += 1
+            if steps > 200:
+                return "no termination after %r  [state: %s]" % (done, w.describe())
+    except Anomaly as e:
+        return "after %r: %s  [state: %s]" % (done, e, w.describe())
+    r = w.judge_quiescent()
+    if r is not None:
+        return "%s  after %r  [state: %s]" % (r, done, w.describe())
+    return None
+
+
+class ReentrantRequests(Bounded):
+    prop = "C39"
+    title = ("requests issued from inside the callback of an earlier request's Deferred (the application reacts to the "
+             "outcome of one negotiation by starting the next, on the same or another option): same oracle as "
+             "ExhaustiveInterleavings -- nothing raises, every Deferred (the follow-up's too) fires exactly once, the run "
+             "drains, both sides agree")
+    scope = ("1 and 2 options, the 5 named two-option policy pairs and all-accept for one option; every script of "
+             "<= 2 plain requests (either side) followed by one request with a follow-up by the same side, followed by "
+             "<= 1 further plain request, each optionally preceded by draining one pipe; then everything is "
+             "delivered in pipe order A>B first. thorough adds a second follow-up request and random scripts of up to 8 "
+             "steps. case = (config, script)")
+    functions = ExhaustiveInterleavings.functions
+
+    def cases(self, tier, rng):
+        configs = [(1, ((0,), (0,)), ((0,), (0,)))] + [(2, pa, pb) for pa, pb in TWO_OPTION_POLICIES]
+        for config in configs:
+            alpha = request_alphabet(config)
+            own = {0: [a for a in alpha if a[0] == "A"], 1: [a for a in alpha if a[0] == "B"]}
+            # at most one option for the prefix when there are two, to keep the count down
+            pre = [()] + [(a,) for a in alpha] + [(a, "A>B", "B>A") for a in alpha]
+            if config[0] == 1 or tier != "quick":
+                pre += [(a, "A>B", "B>A", b, "A>B", "B>A") for a in alpha for b in alpha]
+            for p in pre:
+                for side in (0, 1):
+                    for a in own[side]:
+                        for b in own[side]:
+                            yield (config, p + ((a, b),))
+                            if tier != "quick" or config[0] == 1:
+                                for c in alpha:
+                                    yield (config, p + ((a, b), "A>B", c))
+        if tier != "quick":
+            for _ in range(20000):
+                config = rng.choice(configs)
+                alpha = request_alphabet(config)
+                script = []
+                for _ in range(rng.randint(2, 8)):
+                    k = rng.random()
+                    if k < 0.3:
+                        script.append(rng.choice(["A>B", "B>A"]))
+                    elif k < 0.6:
+                        script.append(rng.choice(alpha))
+                    else:
+                        a = rng.choice(alpha)
+                        script.append((a, rng.choice([b for b in alpha if b[0] == a[0]])))
+                yield (config, tuple(script))
+
+    def check(self, case):
+        config, script = case
+        try:
+            return reentrant_run(config, script)
+        except Bounded.Skip:
+            raise
+
+
+BOUNDED = [ExhaustiveInterleavings, RandomRuns, ReentrantRequests]
